@@ -12,17 +12,18 @@ import (
 
 // kvWrite is a mutation of the persistent in-memory state (kv / secret).
 type kvWrite struct {
-	Fn        *ssa.Function
-	In        ssa.Instruction
-	Kind      string // "insert" (map update), "delete" (map delete), "clear", "store" (field)
-	Loc       string // "kv.secrets", "secret.Versions", "secret.ActiveVersion", "secret.LatestVersion", "kv.gen", ...
-	Map       ssa.Value
-	Key       ssa.Value
-	Val       ssa.Value
-	Addr      *ssa.FieldAddr
-	Field     eng.FieldRef
-	Construct bool      // store into an object allocated in this function (literal under construction)
-	Rollback  *ssa.Call // non-nil: edge-dominated by the err != nil edge of this save call
+	Fn          *ssa.Function
+	In          ssa.Instruction
+	Kind        string // "insert" (map update), "delete" (map delete), "clear", "store" (field)
+	Loc         string // "kv.secrets", "secret.Versions", "secret.ActiveVersion", "secret.LatestVersion", "kv.gen", ...
+	Map         ssa.Value
+	Key         ssa.Value
+	Val         ssa.Value
+	Addr        *ssa.FieldAddr
+	Field       eng.FieldRef
+	ViaCallback bool      // the write is in an undo literal run by the save helper on its failure path
+	Construct   bool      // store into an object allocated in this function (literal under construction)
+	Rollback    *ssa.Call // non-nil: edge-dominated by the err != nil edge of this save call
 }
 
 // kvAnalysis is the shared model of package db's mutators used by C02, C03,
@@ -73,10 +74,25 @@ func loadKV(c *eng.Ctx) *kvAnalysis {
 		}
 	}
 	for _, f := range p.PkgFuncs("db") {
+		// an undo literal handed to a save-or-undo helper: its writes are
+		// rollback writes of the function creating it, tied to that call
+		var viaCallback *ssa.Call
+		owner := f
+		if mk := eng.MakeClosureOf(f); mk != nil {
+			if cu := eng.CallbackOf(mk); cu != nil && k.saveFns[eng.Unwrap(cu.Callee)] && k.undoOnFailureOnly(cu) {
+				viaCallback = cu.Site
+				owner = mk.Parent()
+			}
+		}
 		for _, w := range kvWritesIn(f) {
 			w.Rollback = k.rollbackOf(w.In)
+			if viaCallback != nil && w.Rollback == nil {
+				w.Rollback = viaCallback
+				w.ViaCallback = true
+				w.Fn = owner
+			}
 			k.writes = append(k.writes, w)
-			k.byFn[f] = append(k.byFn[f], w)
+			k.byFn[w.Fn] = append(k.byFn[w.Fn], w)
 		}
 	}
 	sort.SliceStable(k.writes, func(i, j int) bool { return k.writes[i].In.Pos() < k.writes[j].In.Pos() })
@@ -343,4 +359,69 @@ func incOf(v ssa.Value, addr *ssa.FieldAddr) (c int64, op token.Token, ok bool) 
 		return 0, 0, false
 	}
 	return cv, b.Op, true
+}
+
+// undoOnFailureOnly: in the save helper receiving the callback, the callback
+// is called only on the err != nil edge of a save call, on every path from
+// that edge to a return, and those returns report a non-nil error; paths on
+// the nil edge return without calling it.
+func (k *kvAnalysis) undoOnFailureOnly(cu *eng.CallbackUse) bool {
+	h := cu.Callee
+	if len(cu.Calls) == 0 {
+		return false
+	}
+	var inner *ssa.Call
+	for _, uc := range cu.Calls {
+		s := k.rollbackOf(uc)
+		if s == nil {
+			return false // called elsewhere than on a failed save
+		}
+		if inner != nil && inner != s {
+			return false
+		}
+		inner = s
+	}
+	isUndo := func(in ssa.Instruction) bool {
+		for _, uc := range cu.Calls {
+			if in == ssa.Instruction(uc) {
+				return true
+			}
+		}
+		return false
+	}
+	ev := saveErr(inner)
+	if ev == nil {
+		return false
+	}
+	// failure edge: every return passes the undo
+	if hit, _ := eng.Search(h, inner, eng.AssumeErr(ev, false), isUndo, eng.IsReturn); hit != nil {
+		return false
+	}
+	// and reports an error
+	ei := errResultIndex(h)
+	if ei < 0 {
+		return false
+	}
+	for _, r := range eng.Returns(h) {
+		if hit, _ := eng.Search(h, inner, eng.AssumeErr(ev, false), nil, func(x ssa.Instruction) bool { return x == ssa.Instruction(r) }); hit != nil {
+			if nonNilAt(eng.RetVals(r)[ei], eng.FactsAt(r)) != eng.Yes && !eng.Same(eng.RetVals(r)[ei], ev) {
+				return false
+			}
+		}
+	}
+	return true
+}
+
+// sameMapSrcX is sameMapSrc across the parameter boundary of a
+// single-call-site helper (the receiver of the helper is the caller's).
+func sameMapSrcX(a, b ssa.Value) bool {
+	if sameMapSrc(a, b) {
+		return true
+	}
+	fa, ba, ok1 := eng.LoadedField(a)
+	fb, bb, ok2 := eng.LoadedField(b)
+	if !ok1 || !ok2 || fa.Name != fb.Name || !types.Identical(eng.Deref(fa.Owner), eng.Deref(fb.Owner)) {
+		return false
+	}
+	return eng.SameX(ba, bb)
 }
